@@ -1187,6 +1187,10 @@ func (s *verifC1213Suite) TestVerifC12(c *C) {
 	chk.Assume("boot in-use answers are produced by programming snap_kernel / snap_try_kernel of the mock bootloader before a kernel refresh; they may name any kept revision (current, older, a revert leftover) or a revision that is not kept")
 	prof := &vProfile{prop: "C12", wRefreshNew: 42, wRefreshKept: 14, wRevert: 10, wRevertTo: 10, wBadRevert: 0, wRetain: 20, wToggle: 0, wProbe: 0, kernelEvery: 4}
 	s.runHistories(c, chk, prof, kit.Scale(14, 60))
+	if kit.OnlyCase() >= 0 {
+		chk.MinDistinct(0) // replay of one history: floors do not apply
+		return
+	}
 	chk.Floor("refreshes_to_new", 60)
 	chk.Floor("refreshes_to_kept", 10)
 	chk.Floor("discards_observed", 30)
@@ -1208,6 +1212,10 @@ func (s *verifC1213Suite) TestVerifC13(c *C) {
 	chk.Assume("a revision whose own last revert-away was requested NotBlocked and that has not been refreshed to since is exempt from the must-be-blocked claim of later default reverts (the statement's 'unless the revert was requested as not blocking them' is read per reverted-from revision); entries of Block() that are not later revisions are counted, not judged")
 	prof := &vProfile{prop: "C13", wRefreshNew: 24, wRefreshKept: 8, wRevert: 20, wRevertTo: 20, wBadRevert: 10, wRetain: 5, wToggle: 7, wProbe: 9, kernelEvery: 0}
 	s.runHistories(c, chk, prof, kit.Scale(30, 120))
+	if kit.OnlyCase() >= 0 {
+		chk.MinDistinct(0) // replay of one history: floors do not apply
+		return
+	}
 	chk.Floor("reverts_ok", 30)
 	chk.Floor("reverts_ok_not_blocked", 8)
 	chk.Floor("reverts_rejected_not-kept", 2)
